@@ -38,14 +38,18 @@ Print Assumptions C16_any_client.
 Theorem C16_init_empty : Inv (a_init []) (spec_init []).
 Proof. exact Inv_empty. Qed.
 
-(* non-vacuity: a concrete sequence with nested snapshots, reverts across account creation,
-   storage, nonce, balance, refund and self-destruct satisfies the guard *)
+(* non-vacuity: a concrete multi-transaction sequence with nested snapshots, reverts across
+   account creation, storage, nonce, balance, refund, self-destruct, Finalise and a block commit
+   satisfies the guard *)
 Example C16_guard_nonvacuous :
   pguardedb (a_init [])
     [AddBalance 11%N 100; SetState 11%N 1%N 7; Snapshot; SubBalance 11%N 40; AddBalance 12%N 40;
      SetNonce 12%N 1; Snapshot; SetState 11%N 1%N 0; SetState 12%N 2%N 5; AddRefund 3; Suicide 12%N;
      GetBalance 12%N; RevertToSnapshot 1; GetState 11%N 1%N; HasSuicided 12%N; GetRefund;
-     RevertToSnapshot 0; Exist 12%N; GetBalance 11%N; GetCommittedState 11%N 1%N; Empty 12%N] = true.
+     RevertToSnapshot 0; Exist 12%N; GetBalance 11%N; GetCommittedState 11%N 1%N; Empty 12%N;
+     Finalise; GetCommittedState 11%N 1%N; Snapshot; SetState 11%N 1%N 0; AddBalance 13%N 5; RevertToSnapshot 0;
+     SubBalance 11%N 100; SetNonce 11%N 1; Finalise; BlockCommit; GetBalance 11%N; GetState 11%N 1%N; Snapshot;
+     AddBalance 14%N 0; Finalise; Exist 14%N] = true.
 Proof. vm_compute. reflexivity. Qed.
 
 (* the full statement (no guard) is false of the faithful adapter model; each witness is replayed
